@@ -1,4 +1,5 @@
 """C10 - Fidelity, KL divergence and NLL report the quantities they are named for."""
+import math
 import numpy as np
 import torch
 from hypothesis import strategies as st
@@ -66,6 +67,8 @@ def cases(draw, tier):
     if sc.get("unitaries") and draw(st.booleans()):
         c["unitaries_load"] = {k: [draw(gen.ANGLE) for _ in range(4)] for k in sc["unitaries"]}
     c["space_default"] = draw(st.booleans())
+    c["aborted_first"] = draw(st.integers(0, 2)) == 0
+    c["many_states"] = draw(st.integers(0, 7)) == 0
     N = draw(st.integers(1, 6)) if draw(st.integers(0, 19)) else draw(st.integers(257, 700))     # occasionally a large data set
     U01 = st.floats(0, 1, exclude_max=True, allow_nan=False, width=64)
     if N <= 6:
@@ -274,6 +277,39 @@ def check(c):
         excluded += 1
     # history on the same model object: parameters B written in place, metrics evaluated, parameters A restored, metrics evaluated again
     if c.get("alt"):
+        def own_now():
+            sp2_ = state.generate_hilbert_space()
+            if dens:
+                o_ = R.lib_to_c(state.rho(sp2_, sp2_)); return o_ / o_.diagonal().real.sum()
+            o_ = R.lib_to_c(state.psi(sp2_)); return o_ / torch.sqrt((o_.abs() ** 2).sum())
+
+        def own_metrics(what, bucket):
+            """fidelity against the model's own current state is 1 and NLL of basis state 0 is minus the log of its own current probability"""
+            o_ = own_now()
+            f_ = TS.fidelity(state, R.c_to_lib(o_), space)
+            require(abs(f_ - 1) <= ftol, bucket + ":fidelity-own-state", f"{what}: fidelity against the model's own current state is {f_}, not 1")
+            p0_ = float(o_[0, 0].real) if dens else float(o_[0].abs() ** 2)
+            if p0_ > 1e-12:
+                nl_ = TS.NLL(state, R.rows_from_indices([0], n), space)
+                require(abs(nl_ + math.log(p0_)) <= 1e-7 * (1 + abs(math.log(p0_))), bucket + ":NLL", f"{what}: NLL of basis state 0 is {nl_}, minus the log of its current probability is {-math.log(p0_)}")
+
+        if c.get("aborted_first"):
+            # after an exception: a fit() whose callbacks evaluate the normalisation is aborted by a user callback (caught); metrics are
+            # evaluated once, the parameters change without a completed fit (below), and the metrics must follow
+            dat_ = state.generate_hilbert_space()[: min(3, D)].clone()
+            gen.abort_a_fit(state, dat_, None if t == "positive" else np.array([["Z"] * n] * dat_.shape[0]), hook="on_epoch_end" if len(c["rows"]) % 2 else "on_batch_end",
+                            touch_normalization=True, space=space)
+            gen.set_net(state.rbm_am, sc["am"])
+            if sc.get("ph"):
+                gen.set_net(state.rbm_ph, sc["ph"])
+            f0_ = TS.fidelity(state, lib_t, space)
+            require(abs(f0_ - f) <= 1e-12, "after-aborted-fit:fidelity", f"after a fit() aborted by an exception (caught) and the parameters written back, fidelity is {f0_}, it was {f}")
+        if c.get("many_states") and n <= 3:
+            # long time axis: 36 parameter states evaluated on this one object, two normalisation-dependent metrics at each
+            for i_ in range(36):
+                f_ = 1.0 - 0.02 * (i_ + 1)
+                gen.set_net(state.rbm_am, {k_: (torch.tensor(v_, dtype=torch.double) * f_).tolist() for k_, v_ in sc["am"].items()})
+                own_metrics(f"parameter state {i_ + 1} of 36 evaluated on one object", "long-history")
         gen.set_net(state.rbm_am, c["alt"]["am"])
         if c["alt"].get("ph"):
             gen.set_net(state.rbm_ph, c["alt"]["ph"])
@@ -284,6 +320,7 @@ def check(c):
             ownB = R.lib_to_c(state.psi(sp2)); ownB = ownB / torch.sqrt((ownB.abs() ** 2).sum())
         fB = TS.fidelity(state, R.c_to_lib(ownB), space)
         require(abs(fB - 1) <= ftol, "history:fidelity-own-state-after-update", f"after an in-place parameter update, fidelity against the model's own (new) state is {fB}, not 1")
+        own_metrics("after an in-place parameter update" + (" that followed an aborted fit" if c.get("aborted_first") else ""), "history")
         TS.NLL(state, R.rows_from_indices([0], n), space)
         gen.set_net(state.rbm_am, sc["am"])
         if sc.get("ph"):
